@@ -9,4 +9,5 @@ INVARIANT LessEquiv
 INVARIANT RoundTrip
 INVARIANT PlaceEquiv
 INVARIANT WindowEquiv
+INVARIANT FreshEquiv
 CHECK_DEADLOCK FALSE
